@@ -260,7 +260,7 @@ def impl_load(case, path, working_directory=None):
 
 
 def impl_model_case(case, tmp):
-    path = os.path.join(tmp, f"in_{case['id']}{ext_of(case['fmt'])}")
+    path = os.path.join(tmp, file_name(case, "in"))
     write_file(path, np_array(case), case["fmt"], SEPS.get(case.get("sep")), case.get("numfmt", "%.18e"))
     return impl_load(case, path)
 
@@ -270,11 +270,30 @@ def real_path(base, logical):
     return os.path.join(base, logical.lstrip("/"))
 
 
-def designated(wd, name):
-    """the file a (possibly relative) name designates under working directory `wd` (logical paths)"""
-    if name.startswith("/"):
-        return name
-    return (wd + "/" + name) if wd else ("cwd/" + name)
+def new_env():
+    return {"wd": "", "cwd": "cwd", "links": {}}
+
+
+def track(env, ev):
+    """update working directory / current directory / symbolic links with an event"""
+    if ev["ev"] == "setwd":
+        env["wd"] = ev["wd"]
+    elif ev["ev"] == "chdir":
+        env["cwd"] = ev["dir"]
+    elif ev["ev"] == "link":
+        env["links"][ev["path"]] = ev["target"]
+
+
+def designated(env, name):
+    """the file a (possibly relative) name designates now (logical paths): working directory, else the process's
+    current directory; then symbolic links are followed"""
+    if isinstance(env, str):
+        env = {"wd": env, "cwd": "cwd", "links": {}}
+    p = name if name.startswith("/") else ((env["wd"] + "/" + name) if env["wd"] else (env["cwd"] + "/" + name))
+    for _ in range(8):
+        if p in env["links"]:
+            p = env["links"][p]
+    return p
 
 
 def impl_history(case, tmp):
@@ -283,6 +302,7 @@ def impl_history(case, tmp):
 
     base = os.path.join(tmp, f"h{case['id']}")
     os.makedirs(os.path.join(base, "cwd"), exist_ok=True)
+    os.makedirs(os.path.join(base, "cwd2"), exist_ok=True)
     answers = []
     last_write = 0.0
     wd = ""
@@ -308,9 +328,23 @@ def impl_history(case, tmp):
             elif ev["ev"] == "setwd":
                 wd = ev["wd"]
                 answers.append(None)
+            elif ev["ev"] == "chdir":
+                os.chdir(os.path.join(base, ev["dir"]))
+                answers.append(None)
+            elif ev["ev"] == "link":
+                path = real_path(base, ev["path"])
+                os.makedirs(os.path.dirname(path), exist_ok=True)
+                if os.path.lexists(path):
+                    os.remove(path)
+                os.symlink(real_path(base, ev["target"]), path)
+                answers.append(None)
             else:
                 name = ev["name"]
                 arg = real_path(base, name) if name.startswith("/") else name
+                if ev.get("as_path"):
+                    from pathlib import Path
+
+                    arg = Path(arg)
                 c = {"oy": case["oy"], "ox": case["ox"], "pos": ev["pos"], "align": ev["align"], "via": ev["via"],
                      **{k: ev[k] for k in ("mult", "tscale", "times", "mutate") if k in ev}}
                 answers.append(impl_load(c, arg, real_path(base, wd) if wd else None))
@@ -327,21 +361,55 @@ def version_array(ev):
     return (np.arange(r * c, dtype=np.float64).reshape(r, c) + 1.0) / 1024.0 + ev["version"] / 8.0
 
 
+def file_name(case, prefix):
+    """the name of the generated input file: plain, with extra dots, spaces, upper / mixed-case suffix"""
+    ext = ext_of(case["fmt"])
+    style = case.get("name_style", "plain")
+    stem = {"plain": f"{prefix}_{case['id']}", "dots": f"{prefix}.v2.{case['id']}", "date": f"{prefix}_2024.01.15_{case['id']}",
+            "space": f"{prefix} with space {case['id']}", "dot-number": f"{prefix}_{case['id']}.0001"}.get(style, f"{prefix}_{case['id']}")
+    if style == "upper":
+        ext = ext.upper()
+    elif style == "mixed":
+        ext = ext[:2].upper() + ext[2:]
+    return stem + ext
+
+
 def impl_format(case, tmp):
     import numpy as np
+    from pathlib import Path
 
     a = np_array(case)
-    path = os.path.join(tmp, f"f_{case['id']}{ext_of(case['fmt'])}")
+    path = os.path.join(tmp, file_name(case, "f"))
     write_file(path, a, case["fmt"], SEPS.get(case.get("sep")), case.get("numfmt", "%.18e"))
-    try:
+
+    def load(p):
         if case["loader"] == "image":
             from pyxel.inputs import load_image
 
-            b = np.asarray(load_image(path))
-        else:
-            from pyxel.inputs import load_table
+            return np.asarray(load_image(p))
+        from pyxel.inputs import load_table
 
-            b = load_table(path).to_numpy()
+        return load_table(p).to_numpy()
+
+    try:
+        if case.get("relink"):
+            # the file is reached through a symbolic link given as a pathlib.Path; afterwards the link is re-pointed
+            # to a file with other values and loaded again through the same name
+            other = os.path.join(tmp, file_name({**case, "id": f"{case['id']}b"}, "f"))
+            a2 = (a.astype(float) + 1.0).astype(a.dtype) if a.dtype.kind != "f" else np.where(np.isfinite(a), a + 1.0, 7.0)
+            write_file(other, a2, case["fmt"], SEPS.get(case.get("sep")), case.get("numfmt", "%.18e"))
+            link = os.path.join(tmp, file_name({**case, "id": f"{case['id']}L"}, "f"))
+            os.symlink(path, link)
+            b = load(Path(link))
+            os.remove(link)
+            os.symlink(other, link)
+            b2 = load(Path(link))
+            if b2.shape != a2.shape or not same_values(grid_bits(b2) if b2.ndim == 2 else [], grid_bits(a2)):
+                return {"shape": list(b.shape), "ok": grid_bits(b) if b.ndim == 2 else None,
+                        "relink": "the second load through the re-pointed link did not return the new target's content"
+                                  + (" (it returned the first target's)" if b2.shape == a.shape and same_values(grid_bits(b2), grid_bits(a)) else "")}, path
+        else:
+            b = load(Path(path) if case.get("as_path") else path)
     except Exception as e:  # noqa: BLE001
         return err_answer(e), path
     return {"shape": list(b.shape), "ok": grid_bits(b) if b.ndim == 2 else None}, path
@@ -370,7 +438,11 @@ def same_values(g1, g2):
 
 def statement_format(case, impl):
     if "err" in impl:
-        return f"{case['loader']} loader failed on a {case['fmt']} file: {impl['err']} {impl.get('msg', '')[:100]}"
+        return (f"{case['loader']} loader failed on a {case['fmt']} file"
+                + (f" named in the '{case['name_style']}' style" if case.get("name_style", "plain") != "plain" else "")
+                + f": {impl['err']} {impl.get('msg', '')[:100]}")
+    if impl.get("relink"):
+        return f"{case['loader']} loader, {case['fmt']} file reached through a symbolic link (pathlib.Path): {impl['relink']}"
     if impl["shape"] != [case["ay"], case["ax"]]:
         return f"shape {impl['shape']} read back, ({case['ay']}, {case['ax']}) was stored"
     want = grid_bits(np_array(case))
@@ -517,6 +589,10 @@ def req_memo(case):
             evs.append({"ev": "remove", "path": ev["path"]})
         elif ev["ev"] == "setwd":
             evs.append({"ev": "setwd", "wd": ev["wd"]})
+        elif ev["ev"] == "chdir":
+            evs.append({"ev": "chdir", "dir": ev["dir"]})
+        elif ev["ev"] == "link":
+            evs.append({"ev": "link", "path": ev["path"], "target": ev["target"]})
         else:
             k = json.dumps([ev["pos"], ev["align"]])
             args_ids.setdefault(k, len(args_ids))
@@ -533,9 +609,7 @@ def label_history(case, answers, args_ids):
         if ev["ev"] == "write":
             written.append(ev)
             out.append(None)
-        elif ev["ev"] in ("remove", "setwd"):
-            if ev["ev"] == "setwd":
-                wd = ev["wd"]
+        elif ev["ev"] in ("remove", "setwd", "chdir", "link"):
             out.append(None)
         else:
             aid = args_ids[json.dumps([ev["pos"], ev["align"]])]
@@ -569,16 +643,17 @@ def center_trunc(ay, ax, oy, ox):
 def statement_history(case, answers):
     """`What a model loads always reflects the file's content at the time of the run`"""
     current: dict = {}
-    wd = ""
+    env = new_env()
     for n, (ev, ans) in enumerate(zip(case["events"], answers)):
         if ev["ev"] == "write":
             current[ev["path"]] = ev
         elif ev["ev"] == "remove":
             current.pop(ev["path"], None)
-        elif ev["ev"] == "setwd":
-            wd = ev["wd"]
+        elif ev["ev"] in ("setwd", "chdir", "link"):
+            track(env, ev)
         else:
-            target = designated(wd, ev["name"])
+            wd = env["wd"]
+            target = designated(env, ev["name"])
             w = current.get(target)
             if w is None:
                 if "err" not in ans:
@@ -691,7 +766,8 @@ def gen_model_cases(rng, n):
             extra["pre_photon"] = float(rng.choice([64, 512, 2048]))
         cases.append({"stream": "model", "id": i, "via": via, "fmt": fmt, "sep": sep, "ay": ay, "ax": ax, "oy": oy, "ox": ox,
                       "pos": pos, "align": align, "dtype": dtype, "arr": gen_values(rng, ay, ax, style),
-                      "numfmt": rng.choice(["%.18e", "%.17g"]), **extra})
+                      "numfmt": rng.choice(["%.18e", "%.17g"]),
+                      "name_style": rng.choice(["plain", "plain", "dots", "date", "space", "upper", "mixed"]), **extra})
     # directed: load_charge into non-square detectors that already hold charge clusters
     for k, (oy, ox) in enumerate([(3, 5), (5, 3), (2, 7), (4, 1)]):
         for align in (None, "center"):
@@ -790,6 +866,58 @@ def gen_history(rng, n):
     return cases
 
 
+def gen_link_history(rng, n):
+    """histories in which the NAME stays the same and the file it designates changes: a symbolic link that is
+    re-pointed, a relative name while the process changes directory — names given as pathlib.Path (and as str)"""
+    cases = []
+    for i in range(n):
+        oy, ox = rng.choice([2, 3, 4]), rng.choice([2, 3, 5])
+        args = {"pos": [rng.randrange(-1, 2), rng.randrange(-1, 2)], "align": rng.choice(ALIGNS + [None, None])}
+        events, version = [], 0
+        shape = [rng.choice([2, 3, 4]), rng.choice([2, 3, 4])]
+
+        def write(path):
+            nonlocal version
+            version += 1
+            events.append({"ev": "write", "path": path, "version": version, "shape": shape, "how": "inplace"})
+
+        def load(name, as_path=True):
+            via = rng.choice(["direct", "load_image", "load_charge"])
+            ev = {"ev": "load", "name": name, "via": via, "as_path": as_path, **args}
+            if via != "direct":
+                ev["tscale"] = rng.choice([1.0, 2.0])
+                ev["times"] = [1.0]
+                if via == "load_image":
+                    ev["mult"] = rng.choice([1.0, 0.5])
+            events.append(ev)
+
+        root = rng.choice(["cwd", "/abs"])          # where the link lives: relative name or absolute name
+        link = f"{root}/data/L.npy"
+        name = "data/L.npy" if root == "cwd" else link
+        write(f"{root}/data/a.npy")
+        write(f"{root}/data/b.npy")
+        write("cwd/rel.npy")
+        write("cwd2/rel.npy")
+        events.append({"ev": "link", "path": link, "target": f"{root}/data/a.npy"})
+        load(name)
+        if rng.random() < 0.5:
+            load(name, as_path=rng.random() < 0.5)
+        events.append({"ev": "link", "path": link, "target": f"{root}/data/b.npy"})
+        load(name)
+        load(name, as_path=rng.random() < 0.7)
+        load("rel.npy")
+        events.append({"ev": "chdir", "dir": "cwd2"})
+        load("rel.npy")
+        if rng.random() < 0.5:
+            events.append({"ev": "chdir", "dir": "cwd"})
+            load("rel.npy", as_path=rng.random() < 0.7)
+            if root == "cwd":
+                events.append({"ev": "link", "path": link, "target": f"{root}/data/a.npy"})
+                load(name)
+        cases.append({"stream": "history", "id": f"link{i}", "oy": oy, "ox": ox, "events": events})
+    return cases
+
+
 def special_floats(rng):
     return rng.choice([float("nan"), float("inf"), -float("inf"), -0.0, 0.0, 5e-324, 1.7976931348623157e308,
                        2.2250738585072014e-308, 0.1, 1 / 3])
@@ -827,7 +955,9 @@ def gen_format(rng, n):
                 row.append(bits(v))
             arr.append(row)
         cases.append({"stream": "format", "id": i, "loader": loader, "fmt": fmt, "sep": sep, "ay": ay, "ax": ax, "dtype": dtype,
-                      "arr": arr, "numfmt": rng.choice(["%.18e", "%.18e", "%.17g", "%s"])})
+                      "arr": arr, "numfmt": rng.choice(["%.18e", "%.18e", "%.17g", "%s"]),
+                      "name_style": rng.choice(["plain", "plain", "dots", "date", "space", "upper", "mixed", "dot-number"]),
+                      "as_path": rng.random() < 0.4, "relink": rng.random() < 0.15})
     return cases
 
 
@@ -868,6 +998,10 @@ def violation_key(case, why):
         return "C20:load_table_v2:" + ("named-column-holds-other-column" if "does not hold" in why else "error-or-missing")
     if s == "qe_curve":
         return "C20:apply_qe_curve:named-columns"
+    if s == "format" and "symbolic link" in why:
+        return f"C20:load_{case['loader']}:stale-path-resolution"
+    if s == "format" and "named in the" in why:
+        return f"C20:load_{case['loader']}:file-name"
     return f"C20:load_{case['loader']}:{'text' if case['fmt'] in ('txt', 'data', 'csv') else case['fmt']}:" + (
         "values" if "value at" in why else "shape-or-error")
 
@@ -884,6 +1018,7 @@ def body(ck: common.Check):
     cases += gen_fit(rng, 1500 if quick else 15000)
     cases += gen_model_cases(rng, 250 if quick else 2000)
     cases += gen_history(rng, 50 if quick else 400)
+    cases += gen_link_history(rng, 16 if quick else 120)
     cases += gen_format(rng, 600 if quick else 6000)
     cases += gen_tablev2(rng, 120 if quick else 1200)
 
@@ -953,7 +1088,8 @@ def body(ck: common.Check):
                         ck.count("history:model-load:" + ("scale!=1" if scaled else "scale=1") + f":readouts={len(ev.get('times', [1.0]))}")
                     ck.count(f"history:{ev['ev']}" + (f":{ev['how']}" if ev["ev"] == "write" else "")
                              + (f":{ev['via']}:{'absolute' if ev['name'].startswith('/') else 'relative'}" if ev["ev"] == "load" else "")
-                             + ((":set" if ev["wd"] else ":unset") if ev["ev"] == "setwd" else ""))
+                             + ((":set" if ev["wd"] else ":unset") if ev["ev"] == "setwd" else "")
+                             + (":as-Path" if ev["ev"] == "load" and ev.get("as_path") else ""))
                 for a in impl:
                     if a and a.get("mutated"):
                         ck.count("history:mutation-of-returned-array:" + a["mutated"])
@@ -961,7 +1097,8 @@ def body(ck: common.Check):
                 if lab != ans["model"]:
                     ck.disagreement(s, case, lab, ans["model"], key="C20:stale-cache" if lab in (ans["stale"], ans["unresolved"]) else None)
                     ck.count("history:behaves-like-unrepaired-keying" if lab == ans["stale"] else
-                             "history:behaves-like-identity-of-unresolved-name" if lab == ans["unresolved"] else "history:other-disagreement")
+                             "history:behaves-like-identity-of-unresolved-name" if lab == ans["unresolved"] else
+                             "history:behaves-like-remembered-name-resolution" if lab == ans["sticky_resolution"] else "history:other-disagreement")
                 if ans["model"] != ans["spec"]:
                     raise common.InfraError("Lean memo model and its spec disagree — model bug")
             elif s in ("tablev2", "qe_curve"):
@@ -982,6 +1119,8 @@ def body(ck: common.Check):
                 ck.count(f"format:{case['loader']}:{case['fmt']}" + (f"/{case['sep']}" if case["sep"] else ""))
                 ck.count(f"format:outcome={'ok' if 'ok' in impl else 'error'}")
                 ck.count("format:size=" + ("wide-and-long" if case["ax"] >= 5 and case["ay"] >= 12 else "small"))
+                ck.count(f"format:file-name={case.get('name_style', 'plain')}")
+                ck.count("format:given-as=" + ("Path through a re-pointed symlink" if case.get("relink") else "Path" if case.get("as_path") else "str"))
                 if case["loader"] == "image" and case["fmt"] in ("txt", "data"):
                     m = ans["model"]
                     model = None if m is None else {"shape": [len(m), len(m[0]) if m else 0],
